@@ -279,8 +279,12 @@ def cbmc_cmd(ctx, q, b, extra=None, witness=True):
     cmd = ['cbmc', q.harness, '-I', LIB, '-I', os.path.join(VERIF, 'harness'), '-I', os.path.dirname(q.harness),
            '-DVF_UNIT_C="%s"' % b['c']] + (['-DWITNESS'] if witness else []) + cdefs(q) + ['-D%s=%s' % kv for kv in sorted(q.cbmc_defines.items())]
     cmd += ['--unwind', str(q.unwind), '--unwinding-assertions', '--drop-unused-functions', '--no-malloc-may-fail', '--object-bits', '12']
-    if q.unwindset:
-        cmd += ['--unwindset', ','.join(q.unwindset)]
+    # byte loops that ll2c emits for memcpy/memmove with a symbolic length: bounded separately (unwinding assertions still apply)
+    us = list(q.unwindset)
+    for loop in ('vf_memcpy.0', 'vf_memmove.0', 'vf_memmove.1'):
+        if not any(u.startswith(loop + ':') for u in us):
+            us.append('%s:%d' % (loop, max(q.unwind, 66)))
+    cmd += ['--unwindset', ','.join(us)]
     if q.solver == 'kissat':
         cmd += ['--external-sat-solver', 'kissat']
     elif q.solver in ('cadical', 'minisat2', 'glucose'):
